@@ -141,6 +141,14 @@ func genC14(g *gen) {
 			}
 		}
 	}
+	// an element type outside the specialised ones (uintptr): every format either round-trips it or refuses it
+	for _, f := range serialFormats {
+		for _, sh := range [][]int{{2, 3}, {4}, {2, 1, 2}} {
+			for _, lay := range []string{"contig", "physT", "rowview"} {
+				g.serialProgram(f, "uptr", sh, lay, "none", 0)
+			}
+		}
+	}
 	// 2. formats x shapes x layouts, element types / masks / value sets rotating (all in thorough)
 	k := 0
 	for _, f := range serialFormats {
